@@ -53,3 +53,20 @@ func (s *Server) VerifPodUID(clusterID, ns, name string) (uid string, ok bool) {
 	}
 	return string(pod.UID), true
 }
+
+// VerifPodSpec reports service account, node and phase of the pod ns/name as the node authorizer active
+// for the cluster currently sees it (ok=false: not there). Used to wait for an injected pod UPDATE.
+func (s *Server) VerifPodSpec(clusterID, ns, name string) (sa, node, phase string, ok bool) {
+	if s.nodeAuthorizer == nil {
+		return "", "", "", false
+	}
+	na := s.nodeAuthorizer.component.ForCluster(cluster.ID(clusterID))
+	if na == nil {
+		return "", "", "", false
+	}
+	pod := (*na).pods.Get(name, ns)
+	if pod == nil {
+		return "", "", "", false
+	}
+	return pod.Spec.ServiceAccountName, pod.Spec.NodeName, string(pod.Status.Phase), true
+}
